@@ -126,19 +126,38 @@ func genC01Parallel(g *gen) *Scenario {
 	g.sc.Cfg.Concurrent = true
 	g.sc.Cfg.MaxLatNs = []int64{300_000, 5_000_000}[g.r.Intn(2)]
 	nSub := 2 + g.r.Intn(3)
-	subs := g.accounts(nSub, 2, func() int64 { return g.r.Range(1000, 5_000_000) })
-	for s := 1; s <= nSub; s++ {
-		st := &sessState{name: fmt.Sprintf("p%d", s), supi: supiN(s), rgs: subs[supiN(s)]}
-		ops := []Op{{ID: g.id(), Kind: "create", Supi: st.supi, Sess: st.name, Consumer: "smf", ChargingID: int32(s), NotifyURI: "http://smf.sim/notify/" + st.supi}}
-		for i, n := 0, 2+g.r.Intn(8); i < n; i++ {
-			ops = append(ops, g.usageOp("update", st, g.r.Chance(150), false, false, false))
-		}
-		if g.r.Chance(500) {
-			ops = append(ops, g.usageOp("release", st, true, false, false, false))
-		}
-		g.sc.Tasks = append(g.sc.Tasks, Task{ID: s, StartNs: g.r.Range(0, 20_000_000), Ops: ops})
+	// 40 %: a subscriber has up to three sessions (PDU sessions), each driven by its own consumer
+	// task; they share the subscriber's rating groups, i.e. its account and its reservation
+	multi := g.r.Chance(400)
+	if multi {
+		nSub = 1 + g.r.Intn(2)
 	}
-	g.sc.Shape = fmt.Sprintf("parallel subs=%d", nSub)
+	subs := g.accounts(nSub, 2, func() int64 { return g.r.Range(1000, 5_000_000) })
+	tid := 0
+	for s := 1; s <= nSub; s++ {
+		nSess := 1
+		if multi {
+			nSess = 2 + g.r.Intn(2)
+		}
+		for k := 0; k < nSess; k++ {
+			tid++
+			st := &sessState{name: fmt.Sprintf("p%d_%d", s, k), supi: supiN(s), rgs: subs[supiN(s)]}
+			ops := []Op{{ID: g.id(), Kind: "create", Supi: st.supi, Sess: st.name, Consumer: fmt.Sprintf("smf%d", k), ChargingID: int32(s*10 + k), NotifyURI: "http://smf.sim/notify/" + st.supi}}
+			for i, n := 0, 2+g.r.Intn(8); i < n; i++ {
+				ops = append(ops, g.usageOp("update", st, g.r.Chance(150), false, false, false))
+			}
+			if g.r.Chance(500) || multi && g.r.Chance(600) {
+				ops = append(ops, g.usageOp("release", st, true, false, false, false))
+			}
+			g.sc.Tasks = append(g.sc.Tasks, Task{ID: tid, StartNs: g.r.Range(0, 20_000_000), Ops: ops})
+		}
+	}
+	if multi {
+		// the sessions' releases tend to come at the same moment (the UE detaches)
+		g.sc.Cfg.YieldPermille = []int{0, 50, 200}[g.r.Intn(3)]
+		g.sc.Cfg.YieldMaxNs = []int64{100_000, 5_000_000}[g.r.Intn(2)]
+	}
+	g.sc.Shape = fmt.Sprintf("parallel subs=%d multi=%v", nSub, multi)
 	return g.sc
 }
 
@@ -471,9 +490,6 @@ func GenC03(seed uint64) *Scenario {
 	g.sc.Cfg.MaxLatNs = 300_000
 	subs := g.accounts(1+g.r.Intn(2), 2, func() int64 { return 3_000_000_000 })
 	shape := g.r.Intn(8)
-	if shape == 7 {
-		shape = 6
-	}
 	g.sc.Shape = fmt.Sprintf("shape=%d", shape)
 	var ops []Op
 	s := &sessState{name: "s1", supi: supiN(1), rgs: subs[supiN(1)]}
@@ -526,6 +542,27 @@ func GenC03(seed uint64) *Scenario {
 			g.sc.Tasks = append(g.sc.Tasks, Task{ID: t, StartNs: 100_000_000 + g.r.Range(0, 3_000_000), Ops: tops})
 		}
 		g.sc.Shape = fmt.Sprintf("shape=6 concurrent tasks=%d", nT)
+		return g.sc
+	case 7: // several subscribers, one consumer task each, all writing their CDR files at the same time
+		g.sc.Cfg.Concurrent = true
+		g.sc.Cfg.MaxLatNs = 2_000_000
+		g.sc.Cfg.YieldPermille = []int{20, 100, 300}[g.r.Intn(3)]
+		g.sc.Cfg.YieldMaxNs = []int64{10_000, 1_000_000}[g.r.Intn(2)]
+		nS := 2 + g.r.Intn(3)
+		g.sc.Accounts = nil
+		for k := 1; k <= nS; k++ {
+			g.sc.Accounts = append(g.sc.Accounts, Account{Supi: supiN(k), RG: 1, Quota: 3_000_000_000, UnitCost: "1"})
+			st := &sessState{name: fmt.Sprintf("c%d", k), supi: supiN(k), rgs: []int32{1}}
+			tops := []Op{{ID: g.id(), Kind: "create", Supi: st.supi, Sess: st.name, Consumer: "smf", ChargingID: int32(k)}}
+			for i, n := 0, 3+g.r.Intn(8); i < n; i++ {
+				tops = append(tops, g.cdrUsageOp("update", st, 1+g.r.Intn(40*k), false, false)) // file sizes differ between subscribers
+			}
+			if g.r.Chance(500) {
+				tops = append(tops, g.cdrUsageOp("release", st, 1+g.r.Intn(20), true, false))
+			}
+			g.sc.Tasks = append(g.sc.Tasks, Task{ID: k, StartNs: g.r.Range(0, 2_000_000), Ops: tops})
+		}
+		g.sc.Shape = fmt.Sprintf("shape=7 concurrent subscribers=%d", nS)
 		return g.sc
 	case 5: // boundary walk: fill the record to just below the limit, then cross it in very small steps
 		ops = append(ops, create)
